@@ -135,6 +135,7 @@ func (exec *Executor) execUnaryMathExpr(
 
 	res = statusNotFound
 	next := node.Next()
+	negates := node.Operator() == ast.UnaryMinus
 	var val any
 
 	for _, v := range seq.list {
@@ -145,7 +146,7 @@ func (exec *Executor) execUnaryMathExpr(
 			if found == nil && next == nil {
 				return statusOK, nil
 			}
-			val = intCallback(v)
+			val = applyIntCallback(v, negates, intCallback, floatCallback)
 		case float64:
 			if found == nil && next == nil {
 				return statusOK, nil
@@ -155,7 +156,11 @@ func (exec *Executor) execUnaryMathExpr(
 			if found == nil && next == nil {
 				return statusOK, nil
 			}
-			val, ok = castJSONNumber(v, intCallback, floatCallback)
+			if integer, err := v.Int64(); err == nil {
+				val = applyIntCallback(integer, negates, intCallback, floatCallback)
+			} else {
+				val, ok = castJSONNumber(v, intCallback, floatCallback)
+			}
 		default:
 			ok = found == nil && next == nil
 		}
